@@ -123,7 +123,7 @@ func presenceRule(c *Ctx, fnName string, rows []presRow) int {
 	p, r := c.Prog, c.R
 	fn := p.Func(fnName)
 	if fn == nil {
-		r.Fatalf("anchor %s missing", fnName)
+		missingAnchor(r, fnName)
 		return 0
 	}
 	if len(fn.Params) == 0 {
